@@ -10,7 +10,7 @@ import (
 func init() {
 	register(&Check{
 		ID: "C12", Level: "exploration", QuickSecs: 100, ThoroughSecs: 1200,
-		Rule:        "grammars without blocks over terminals {'a',\"ab\",\"b\"i,[ab],[^a],.,\"\"} with !/& nesting up to depth 3, seq/choice, two-rune literals failing on the second rune, terminals starting at the same offset on different paths (N<=5 quick, 6 thorough); all inputs over {a,b,\\n,é} up to L=3 (4); for every NON-matching input the complete error (position line:col (offset) of the farthest failure and the sorted, de-duplicated expected list with !-prefixed entries and EOF last) is compared with the one derived from the reference interpreter's terminal-attempt list. Non-trivial = expected list has >= 2 entries or an inverted entry.",
+		Rule:        "grammars without blocks (2 generation flag sets; 4, adding -optimize-basic-latin, for grammars with classes) over terminals {'a',\"ab\",\"b\"i,[ab],[^a],.,\"\"} with !/& nesting up to depth 3, seq/choice, two-rune literals failing on the second rune, terminals starting at the same offset on different paths (N<=5 quick, 6 thorough); all inputs over {a,b,\\n,é} up to L=3 (4); for every NON-matching input the complete error (position line:col (offset) of the farthest failure and the sorted, de-duplicated expected list with !-prefixed entries and EOF last) is compared with the one derived from the reference interpreter's terminal-attempt list. Non-trivial = expected list has >= 2 entries or an inverted entry.",
 		Assumptions: []string{"E1 loader", "reference failure tracking: failures under even predicate polarity, matches under odd polarity"},
 		Run:         runC12,
 	})
@@ -50,7 +50,12 @@ func runC12(c *ShardCtx) {
 				return
 			}
 			// no wrapper: the property is about grammars without blocks
-			runGrammar(c, &peg.Grammar{Rules: []*peg.Rule{{Name: "S", Expr: body}}}, fam)
+			g := &peg.Grammar{Rules: []*peg.Rule{{Name: "S", Expr: body}}}
+			f := *fam
+			if g.Has(peg.KClass) {
+				f.gens = gens4 // classes have a second matching path under -optimize-basic-latin
+			}
+			runGrammar(c, g, &f)
 		}
 	}
 	// second family: two rules with display name, deeper predicate nesting
@@ -67,7 +72,12 @@ func runC12(c *ShardCtx) {
 			if c.Expired("family 2") {
 				return
 			}
-			runGrammar(c, &peg.Grammar{Rules: []*peg.Rule{{Name: "S", Expr: body}, {Name: "A", Display: "an A", Expr: ab}}}, fam)
+			g := &peg.Grammar{Rules: []*peg.Rule{{Name: "S", Expr: body}, {Name: "A", Display: "an A", Expr: ab}}}
+			f := *fam
+			if g.Has(peg.KClass) {
+				f.gens = gens4
+			}
+			runGrammar(c, g, &f)
 		}
 	}
 }
